@@ -22,6 +22,7 @@ func Run(c *hx.Ctx) {
 	random(c)
 	correspondence(c)
 	bigFiles(c)
+	nonBMP(c)
 }
 
 type shape struct {
